@@ -192,15 +192,41 @@ fn keep_one(polys: Vec<(Vec<P>, Vec<Vec<P>>)>, rng: &mut Rng) -> Vec<(Vec<P>, Ve
 
 /// operand pair of a family in canonical form (exterior CCW, holes CW, unclosed rings)
 pub fn canon_pair(fam: &str, kmax: i64, rng: &mut Rng) -> (Vec<(Vec<P>, Vec<Vec<P>>)>, Vec<(Vec<P>, Vec<Vec<P>>)>) {
+    if fam == "frames" {
+        let (x, y) = gen::frames_pair(rng);
+        return if rng.chance(1, 2) { (x, y) } else { (y, x) };
+    }
+    if fam == "lat" {
+        let (x, y) = gen::lat_pair(rng);
+        return if rng.chance(1, 2) { (x, y) } else { (y, x) };
+    }
     loop {
         let f = gen::family(fam, kmax, rng);
-        let a = gen::operand(&f, false, rng);
-        let b = gen::operand(&f, true, rng);
+        let (a, b) = if fam.ends_with("cxabut") || fam.ends_with("cxsub") {
+            let (x, y) = gen::related_pair(&f, rng);
+            if rng.chance(1, 2) { (x, y) } else { (y, x) }
+        } else {
+            (gen::operand(&f, false, rng), gen::operand(&f, true, rng))
+        };
         if a.is_empty() && b.is_empty() {
             continue;
         }
         return (a, b);
     }
+}
+
+/// three operands of one family in canonical form (C independent of A and B)
+pub fn canon_triple(fam: &str, kmax: i64, rng: &mut Rng) -> [Vec<(Vec<P>, Vec<Vec<P>>)>; 3] {
+    if fam == "frames" {
+        let (a, b) = gen::frames_pair(rng);
+        let (_, c) = gen::frames_pair(rng);
+        return [a, b, c];
+    }
+    let fam = if fam == "lat" { "aff-cx" } else { fam };
+    let f = gen::family(fam, kmax, rng);
+    let (a, b) = if fam.ends_with("cxabut") || fam.ends_with("cxsub") { gen::related_pair(&f, rng) } else { (gen::operand(&f, false, rng), gen::operand(&f, true, rng)) };
+    let c = gen::operand(&f, rng.chance(1, 2), rng);
+    [a, b, c]
 }
 
 fn too_big(a: &IMp, b: &IMp, max_edges: usize) -> bool {
@@ -444,10 +470,10 @@ pub fn sess_chain(sid: u64, fam: &str, seed: u64, o: &Opts, depth3: bool) -> Ses
     let mut s = Sess::new(sid, "chain", fam, seed);
     let fr = frame_for(fam, &mut rng);
     let (a, b, c) = loop {
-        let f = gen::family(fam, o.kmax, &mut rng);
-        let a = gen::present(&gen::operand(&f, false, &mut rng), gen::RANDOMISED, &mut rng);
-        let b = gen::present(&gen::operand(&f, true, &mut rng), gen::RANDOMISED, &mut rng);
-        let c = gen::present(&gen::operand(&f, rng.chance(1, 2), &mut rng), gen::RANDOMISED, &mut rng);
+        let t = canon_triple(fam, o.kmax, &mut rng);
+        let a = gen::present(&t[0], gen::RANDOMISED, &mut rng);
+        let b = gen::present(&t[1], gen::RANDOMISED, &mut rng);
+        let c = gen::present(&t[2], gen::RANDOMISED, &mut rng);
         if gen::n_edges(&a) + gen::n_edges(&b) + gen::n_edges(&c) <= o.max_edges {
             break (a, b, c);
         }
@@ -483,10 +509,10 @@ pub fn sess_pure(sid: u64, fam: &str, seed: u64, o: &Opts) -> Sess {
     let mut s = Sess::new(sid, "pure", fam, seed);
     let fr = frame_for(fam, &mut rng);
     let (a, b, c) = loop {
-        let f = gen::family(fam, o.kmax, &mut rng);
-        let a = gen::present(&gen::operand(&f, false, &mut rng), gen::RANDOMISED, &mut rng);
-        let b = gen::present(&gen::operand(&f, true, &mut rng), gen::RANDOMISED, &mut rng);
-        let c = gen::present(&gen::operand(&f, true, &mut rng), gen::RANDOMISED, &mut rng);
+        let t = canon_triple(fam, o.kmax, &mut rng);
+        let a = gen::present(&t[0], gen::RANDOMISED, &mut rng);
+        let b = gen::present(&t[1], gen::RANDOMISED, &mut rng);
+        let c = gen::present(&t[2], gen::RANDOMISED, &mut rng);
         if gen::n_edges(&a) + gen::n_edges(&b) + gen::n_edges(&c) <= o.max_edges {
             break (a, b, c);
         }
@@ -509,6 +535,46 @@ pub fn sess_pure(sid: u64, fam: &str, seed: u64, o: &Opts) -> Sess {
     s.threaded_calls(&calls, 8, 4);
     for (op, _) in run::OPS {
         s.call(op, "A", "B", 'm', 'm', false); // repeated after the threads
+    }
+    s
+}
+
+/// kind "history": the same big call repeated on one thread after gaps of g unrelated small
+/// calls, for every g around the wrap-around points of 8-bit counters (250..260, 505..515) and
+/// a few other gaps. The small calls are real library calls; they are summarised as one
+/// `filler` event each (how many were made and how many distinct result digests they gave).
+pub fn sess_history(sid: u64, fam: &str, seed: u64, o: &Opts) -> Sess {
+    let mut rng = Rng::new(seed);
+    let mut s = Sess::new(sid, "history", fam, seed);
+    let (a, b) = loop {
+        let (ca, cb) = canon_pair(fam, o.kmax.max(4), &mut rng);
+        let a = gen::present(&ca, gen::RANDOMISED, &mut rng);
+        let b = gen::present(&cb, gen::RANDOMISED, &mut rng);
+        if !too_big(&a, &b, o.max_edges) && gen::n_edges(&a) + gen::n_edges(&b) >= 24 {
+            break (a, b);
+        }
+    };
+    // a small overlapping pair
+    let sq = |x: i64, y: i64| vec![IPoly { ext: vec![(x, y), (x + 2, y), (x + 2, y + 2), (x, y + 2), (x, y)], holes: vec![] }];
+    s.def("A", &a, 0, BASE);
+    s.def("B", &b, 0, BASE);
+    s.def("S", &sq(0, 0), 0, BASE);
+    s.def("T", &sq(1, 1), 0, BASE);
+    let big_op = *rng.pick(&["union", "xor", "diff", "int"]);
+    let mut gaps: Vec<u64> = (250..=260).chain(505..=515).collect();
+    gaps.extend([0u64, 1, 2, 7, 31, 63, 64, 65, 127, 128, 129]);
+    rng.shuffle(&mut gaps);
+    let (sg, tg) = (s.vals["S"].g64.clone().unwrap(), s.vals["T"].g64.clone().unwrap());
+    s.call(big_op, "A", "B", 'm', 'm', false);
+    for g in gaps {
+        let mut digests = std::collections::HashSet::new();
+        let small_op = *rng.pick(&["union", "int", "xor", "diff"]);
+        for _ in 0..g {
+            let (_, r) = run::call(&sg, &tg, run::op_of(small_op), 'm', 'm', 10_000);
+            digests.insert(r.map(|m| run::digest(&m)).unwrap_or_default());
+        }
+        s.events.push(format!("{{\"ev\":\"filler\",\"n\":{},\"op\":\"{}\",\"x\":\"S\",\"y\":\"T\",\"distinct\":{}}}", g, small_op, digests.len()));
+        s.call(big_op, "A", "B", 'm', 'm', false);
     }
     s
 }
